@@ -83,6 +83,24 @@ def chk_integrate(case, acc, seed):
                 if abs(Il - exl) > 1e-9 * abs(exl):
                     acc.violation('integrate:simps:linear-exact', sub, f'simpson of a straight line = {Il} != {exl}')
             acc.cls('integrate')
+    # the same spectrum expressed in another wavelength unit (bounds in that unit): the closed range [start, end] selects the
+    # same samples whatever the magnitude of the numbers (metres: spacings of 1e-8 and below)
+    for unit in UF:
+        if unit == 'nm':
+            continue
+        f = UF[unit]
+        for i, j in itertools.combinations(range(n), 2):
+            sub = dict(case, method='trapz', start=g[i], end=g[j], unit=unit)
+            acc.transitions += 1
+            try:
+                v = spec(g, gen, unit).integrate(g[i] * f, g[j] * f, method='trapz')
+            except Exception as e:
+                acc.violation(f'integrate:raises:{type(e).__name__}:{unit}', sub, repr(e))
+                continue
+            ex = float(exact_pl_integral(g, gen, g[i], g[j])) * f
+            if abs(v - ex) > 1e-9 * (g[-1] - g[0]) * 16 * f:
+                acc.violation(f'integrate:trapz:piecewise-linear-exact:{unit}', sub, f'trapz = {v}, exact piecewise-linear integral = {ex} ({unit})')
+        acc.cls(f'integrate:unit={unit}')
     # bounds beyond the sampled range select what is there: the integral is that over the sampled range
     for method in ('trapz', 'simps'):
         if method == 'simps' and n < 3:
